@@ -184,6 +184,13 @@ Definition expand_env (e : renv) (s : bytes) : res bytes := expand (get_subst ge
 (* keys that Replace can hand to getSubstitution: "{" … x "}" with x not a backslash *)
 Definition key_shape (key : bytes) : Prop := exists t x, key = t ++ [x; RB] /\ x <> BSL.
 
+(* writing a text with every brace escaped *)
+Fixpoint esc (w : bytes) : bytes :=
+  match w with
+  | [] => []
+  | c :: r => if (c =? LB) || (c =? RB) then BSL :: c :: esc r else c :: esc r
+  end.
+
 (* ---- independent executable spec of the expansion (documented behaviour) ------------------ *)
 (* structural tokenizer: \{ and \} are literal braces, an unescaped { opens a placeholder that
    runs to the next unescaped }, an unpaired { leaves the rest literal *)
